@@ -539,6 +539,29 @@ func init() {
 				add(c16Case{Cmd: "verify", Doc: d.doc, DocName: d.name, Args: args, Input: "fifo", Stdout: "pipe", Target: "dir", Pre: map[string]byte{"a/b": 'd', "a/c.go": 'f'}})
 			}
 		}
+		// big inputs (a tool may treat an input differently from some size on: another reading strategy, another mode): regular
+		// files and standard input of sizes next to 1, 8 and 16 MiB (thorough: every power of two up to 32 MiB), many small
+		// roots; the default format in document order, JSON for the smallest
+		{
+			sizes := []int{1 << 20, 8<<20 - 16, 8<<20 + 16, 16<<20 + 16}
+			if c.Thorough() {
+				sizes = append(sizes, 2<<20+16, 4<<20+16, 32<<20+16)
+			}
+			for _, sz := range sizes {
+				var sb strings.Builder
+				for i := 0; sb.Len() < sz; i++ {
+					fmt.Fprintf(&sb, "- r%07d\n  - k\n", i)
+				}
+				doc := sb.String()
+				name := fmt.Sprintf("big-%d-bytes", sz)
+				add(c16Case{Cmd: "output", Doc: doc, DocName: name, Input: "file", Stdout: "pipe"})
+				add(c16Case{Cmd: "output", Doc: doc, DocName: name, Input: "stdin", Stdout: "pipe"})
+				if sz == 1<<20 {
+					add(c16Case{Cmd: "output", Doc: doc, DocName: name, Args: []string{"--format", "json"}, Input: "file", Stdout: "pipe"})
+					add(c16Case{Cmd: "mkdir", Doc: doc, DocName: name, Args: []string{"--dry-run"}, Input: "file", Stdout: "pipe", Target: "dir"})
+				}
+			}
+		}
 		// standard output is a pipe nobody reads any more
 		for _, d := range docs[:3] {
 			for _, args := range [][]string{nil, {"--massive"}, {"--format", "json"}, {"--format", "yaml"}, {"--format", "toml"}} {
